@@ -89,6 +89,32 @@ model G
   Real k = 7004;
 end G;
 """, ["M1", "H", "G"]),
+    "imports": ("""
+package A
+  model X
+    Real a = 7001;
+  end X;
+end A;
+package B
+  model Y
+    Real b = 7002;
+  end Y;
+end B;
+package P
+  import A.*;
+  import B.*;
+  import BB = B;
+  model M1
+    X x;
+    Real m = x.a + 7003;
+  end M1;
+  model M2
+    X x2;
+    BB.Y y2;
+    Real n = x2.a * y2.b + 7004;
+  end M2;
+end P;
+""", ["P.M1", "P.M2", "A.X"]),
     "func": ("""
 function f
   input Real a;
